@@ -26,6 +26,10 @@ def fval(v):
     return None
 
 
+def bits_of_val(v):
+    return v[2] if isinstance(v, tuple) and len(v) > 2 and v[0] == 's' else 64
+
+
 class ZipfRules:
     def __init__(self, fx, eng, sink):
         self.fx, self.eng, self.sink = fx, eng, sink
@@ -227,27 +231,36 @@ class ZipfRules:
                 continue
             tab = table[0]['name']
             tobj = ('field', S('this'), tab)
-            # Z.DEFAULT
-            dflt = {}
-            for f in r['fields']:
-                n = f.get('init') or {}
-                while n.get('k') == 'initlist' and n.get('items'):
-                    n = n['items'][0]
-                if n.get('k') == 'const':
-                    dflt[f['name']] = int(n['v'])
-                elif n.get('k') == 'fconst':
-                    dflt[f['name']] = float(n['v'])
-            ints = [f['name'] for f in r['fields'] if f['type'].get('bits')]
-            okd = dflt.get('min_') == 0 and dflt.get('max_') == 0 and (not approx or dflt.get('n_') == 1)
-            self.sink.emit('C06.DEFAULT', 'ok' if okd else 'violated', '%s default parameters describe the single bin [0, 0]' % sn, '%s:%s' % (r['file'], r['line']),
-                           'defaults %s' % {k: dflt.get(k) for k in ints})
+            # Z.DEFAULT: what a default-constructed generator holds when its constructor returns: the members' values after
+            # the (possibly delegated) member initialisers, default member initialisers included
             dc = [f for f in self.fx.functions.values() if f.get('record') == rec and f['kind'] == 'ctor' and len(f['params']) == 0]
             upd = self.one(rec, 'UpdateCDF')
+            if not dc:
+                self.sink.unsup('C06.DEFAULT', '%s()' % sn, '%s:%s' % (r['file'], r['line']), 'default constructor not found')
             for c in dc:
                 for p in self.paths(c):
-                    written = [e for e in p.events if e['kind'] == 'init' and e.get('written')]
+                    if p.end == 'throw':
+                        self.sink.bad('C06.DEFAULT', '%s() can throw' % sn, self.loc(c, p.ret_line), '')
+                        continue
+                    vals = {}
+                    for e in p.events:
+                        if e['kind'] == 'init' and e.get('member'):
+                            vals[e['member']] = e['value']
+                        elif e['kind'] == 'assign' and e['path'][0] == 'field' and e['path'][1] == S('this'):
+                            vals[e['path'][2]] = e['value']
+
+                    def zero(v):
+                        v = self.unext(v)
+                        return is_const(v) and v[1] == 0
+                    okd = zero(vals.get('min_')) and zero(vals.get('max_')) and \
+                        (not approx or (is_const(self.unext(vals.get('n_'))) and self.unext(vals.get('n_'))[1] == 1))
+                    self.sink.emit('C06.DEFAULT', 'ok' if okd else 'violated', '%s default parameters describe the single bin [0, 0]' % sn, self.loc(c, p.ret_line),
+                                   'after %s(): %s' % (sn, {k: norm(vals.get(k)) for k in ('min_', 'max_', 'n_') if k in vals}))
                     calls = [e for e in p.events if e['kind'] == 'call' and e.get('callee') == upd['key']]
-                    self.sink.emit('C06.DEFAULT', 'ok' if (not written and len(calls) == 1) else 'violated', '%s() keeps the defaults and builds the table' % sn, self.loc(c), '')
+                    inits = [i for i, e in enumerate(p.events) if e['kind'] == 'init' and e.get('member')]
+                    after = bool(calls) and (not inits or calls[0]['seq'] > p.events[inits[-1]]['seq'])
+                    self.sink.emit('C06.DEFAULT', 'ok' if (len(calls) == 1 and after) else 'violated', '%s() builds the table from those parameters' % sn, self.loc(c),
+                                   'one UpdateCDF call after the members are initialised' if len(calls) == 1 and after else '%d UpdateCDF call(s)' % len(calls))
             # UpdateCDF: single-bin branch and pin
             op = self.one(rec, 'operator()')
             nbins = self.nbins_expr(rec, approx)
@@ -286,10 +299,24 @@ class ZipfRules:
                                           'a position outside the table must not turn into a silently wrong value: use at()')
             self.sink.ok('C06.ACCESS', '%s table reads reachable from operator() are bounds-checked' % sn, self.loc(op), '')
             # search range and result
+            cur = self.cursors(op)
             for p in self.paths(op):
                 r_ = p.ret
-                good = isinstance(r_, tuple) and r_[0] == 'op' and r_[1] == '+' and S('this->min_', fld['min_']['type'].get('bits')) in (self.unext(r_[2]), self.unext(r_[3]))
+                mn = S('this->min_', fld['min_']['type'].get('bits'))
+                good = isinstance(r_, tuple) and r_[0] == 'op' and r_[1] == '+' and mn in (self.unext(r_[2]), self.unext(r_[3]))
                 self.sink.emit('C06.RANGE', 'ok' if good else 'violated', '%s::operator() returns min + position' % sn, self.loc(op, p.ret_line), 'returns %s' % norm(r_)[:80])
+                if good and cur is not None:
+                    # the position is the one the bounded search ended on (the final value of its lower cursor)
+                    pos = self.unext(r_[3]) if self.unext(r_[2]) == mn else self.unext(r_[2])
+                    while isinstance(pos, tuple) and pos and pos[0] in ('ext', 'trunc', 'cvt'):
+                        pos = pos[1]
+                    lo_final = p.store.get(('var', cur[0]['did'], cur[0]['name']))
+                    while isinstance(lo_final, tuple) and lo_final and lo_final[0] in ('ext', 'trunc', 'cvt'):
+                        lo_final = lo_final[1]
+                    same = lo_final is not None and (pos == lo_final or (is_const(pos) and is_const(lo_final) and pos[1] == lo_final[1]))
+                    self.sink.emit('C06.RANGE', 'ok' if same else 'violated', '%s::operator() returns the position the bounded search ended on' % sn, self.loc(op, p.ret_line),
+                                   'position %s' % norm(pos)[:70] if same else
+                                   'the returned position %s is not the final lower cursor of the search over [0, bins - 1] (%s): its range is not established by the search' % (norm(pos)[:70], norm(lo_final)[:40]))
             decls = {}
             for p in self.paths(op)[:1]:
                 for e in p.events:
@@ -388,39 +415,35 @@ class ZipfRules:
             return [self.expand(x, em, depth) for x in node]
         return node
 
+    def cursors(self, op):
+        """the two cursors of the bisection in operator() (possibly declared in an inlined helper): the 64-bit signed
+        automatic variables that the search assigns; lower = the one initialised with 0.  Returns (lo decl, hi decl) events
+        of one path, or None"""
+        ps = self.paths(op)
+        assigned = {e['path'][2] for p in ps for e in p.events if e['kind'] == 'assign_local' and e['path'][0] == 'var'}
+        for p in ps:
+            ds = [e for e in p.events if e['kind'] == 'decl' and e['storage'] == 'auto' and e['type'].get('bits') == 64 and e['type'].get('signed')
+                  and 'value' in e and e['name'] in assigned]
+            lo = next((e for e in ds if is_const(e['value']) and e['value'][1] == 0), None)
+            hi = next((e for e in ds if e is not lo and not is_const(e['value'])), None)
+            if lo is not None and hi is not None:
+                return lo, hi
+        return None
+
     def search_bounds(self, op, rec, approx, tobj):
-        ok_all = True
-        em0 = self.eng.elem_map(op)
-        for p in self.paths(op)[:4]:
-            inits = {}
-            for e in p.events:
-                if e['kind'] == 'decl' and e.get('init_node') is not None and e['storage'] == 'auto':
-                    inits.setdefault(e['name'], e)
-            vals = []
-            for e in p.events:
-                if e['kind'] == 'decl' and e['storage'] == 'auto' and e['type'].get('bits') == 64 and e['type'].get('signed'):
-                    vals.append(e)
-            if len(vals) < 2:
-                return False
-            # values of the two cursors at declaration: store snapshot is final; use the init nodes
-            b, en = vals[0], vals[1]
-            em = self.eng.elem_map(self.fx.functions[b['fn']]) if b.get('fn') in self.fx.functions else em0   # the helper the declaration lives in
-            bi = self.expand(b.get('init_node') or {}, em)
-            while bi.get('k') == 'cast':
-                bi = bi['e']
-            if not (bi.get('k') == 'const' and int(bi['v']) == 0):
-                ok_all = False
-            ei = self.expand(en.get('init_node') or {}, em)
-            txt = repr(ei)
-            if approx:
-                if "'n_'" not in txt:
-                    ok_all = False
-            else:
-                if "'size'" not in txt:
-                    ok_all = False
-            if "'-'" not in txt:
-                ok_all = False
-        return ok_all
+        """the search starts on [0, bins - 1]: lower cursor 0, upper cursor = (bin count) - 1 with the bin count being n_
+        (approximate class) or the size of the table (exact class); judged on the values the cursors are declared with"""
+        cur = self.cursors(op)
+        if cur is None:
+            return False
+        lo, hi = cur
+        v = self.unext(hi['value'])
+        if not (isinstance(v, tuple) and v and v[0] == 'op' and v[1] == '-' and is_const(self.unext(v[3])) and self.unext(v[3])[1] == 1):
+            return False
+        cnt = self.unext(v[2])
+        if approx:
+            return cnt == S('this->n_', bits_of_val(cnt)) or show(cnt) == 'this->n_'
+        return isinstance(cnt, tuple) and cnt and cnt[0] == 'app' and cnt[1] == 'size' and any(isinstance(a, tuple) and a and a[0] == 'lv' and a[1] == tobj for a in cnt[2])
 
     def search_rules(self, rec, sn, op, tobj, approx):
         """C06.SEARCH: direction rules of the bisection (necessary for the inverse-CDF clause at, below and
@@ -430,14 +453,10 @@ class ZipfRules:
             u == CDF(P)  => the lower cursor becomes P and the loop is left
         after the loop: u > CDF(lower) => lower+1; the result is min + lower.
         If the loop does not have this shape nothing is emitted (the clause stays undecided)."""
-        curs = None
-        for p in self.paths(op)[:1]:
-            v = [e['name'] for e in p.events if e['kind'] == 'decl' and e['storage'] == 'auto' and e['type'].get('bits') == 64 and e['type'].get('signed')]
-            if len(v) >= 2:
-                curs = (v[0], v[1])
-        if not curs:
+        cur = self.cursors(op)
+        if not cur:
             return
-        lo, hi = curs
+        lo, hi = cur[0]['name'], cur[1]['name']
         seen = {'lt': 0, 'gt': 0, 'eq': 0, 'post': 0}
         bad = []
 
@@ -476,7 +495,7 @@ class ZipfRules:
                     k = j
                     asg = []
                     while k < n and evs[k]['kind'] not in ('loop_head', 'cond'):
-                        if evs[k]['kind'] == 'assign_local' and evs[k]['path'][2] in curs:
+                        if evs[k]['kind'] == 'assign_local' and evs[k]['path'][2] in (lo, hi):
                             asg.append(evs[k])
                         k += 1
                     inside = i < last_head or any(x['kind'] == 'loop_head' for x in evs[k:k + 1])
@@ -537,8 +556,20 @@ class ZipfRules:
         for p in self.paths(g):
             thr = None
             for c, o, _ in p.conds:
-                if isinstance(c, tuple) and c[0] == 'op' and c[1] in ('<', '<=') and self.unext(c[2]) == idp and is_const(self.unext(c[3])):
-                    thr = (self.unext(c[3])[1] + (1 if c[1] == '<=' else 0), o)
+                neg = False
+                while isinstance(c, tuple) and c and c[0] == 'not':
+                    c, neg = c[1], not neg
+                if not (isinstance(c, tuple) and c[0] == 'op' and c[1] in ('<', '<=', '>', '>=')):
+                    continue
+                a, b, opr = self.unext(c[2]), self.unext(c[3]), c[1]
+                if a != idp and b == idp:
+                    a, b, opr = b, a, {'<': '>', '<=': '>=', '>': '<', '>=': '<='}[opr]   # K op id  ->  id op' K
+                if a != idp or not is_const(b):
+                    continue
+                # normalise to (id < T) == below
+                t = b[1] + (1 if opr in ('<=', '>') else 0)
+                below = (o != neg) if opr in ('<', '<=') else ((not o) != neg)
+                thr = (t, below)
             if thr is None:
                 self.sink.unsup('C06.SWITCH', '%s::GetCDF' % sn, self.loc(g, p.ret_line), 'switch not recognised')
                 continue
